@@ -99,12 +99,14 @@ TABLE = {
     'MSC_mk_timer_arm_leeway': {('S', 1): [0, 1]},
     'MSC_thread_switch': {('S', 1): list(range(0, 6))},
     'MSC_semaphore_timedwait_trap': {('E', 0): list(range(0, 54)), ('S', 0): list(range(0, 54))},
-    'RealFaultAddressInternal': {('S', 1): realfault_word},
-    'RealFaultAddressExternal': {('S', 1): realfault_word},
-    'RealFaultAddressSharedCache': {('S', 1): realfault_word},
+    'RealFaultAddressInternal': {('S', 1): realfault_word, ('E', 1): realfault_word},
+    'RealFaultAddressExternal': {('S', 1): realfault_word, ('E', 1): realfault_word},
+    'RealFaultAddressSharedCache': {('S', 1): realfault_word, ('E', 1): realfault_word},
     'TURNSTILE_turnstile_prepare': {('S', 2): list(range(0, 10))},
     'TURNSTILE_turnstile_complete': {('S', 2): list(range(0, 10))},
 }
+# note: a real-fault record is a stand-alone record; when a history gives it an END qualifier the page-fault decoder may
+# still meet it as the first real-fault record of a window, so its END words are in-domain too.
 # note: for MACH_IDLE / semaphore_timedwait the decoder reads the *last* event of its window; when the window is
 # a single event that is also the first one, hence the ('S', i) duplicates.
 
